@@ -99,7 +99,9 @@ func NewCron(db *bolt.DB, partitions int, maxJitter time.Duration, ttl time.Dura
 
 func (c *Cron) Jitter() time.Duration {
 	max := float64(c.MaxJitter)
-	d := time.Duration(rand.Float64()*max - max/2)
+	// Never negative: a job filed before its occurrence goes out
+	// early, and then its "next" occurrence is the same one again.
+	d := time.Duration(rand.Float64() * max)
 	log.Printf("Cron.Jitter %v", d)
 	return d
 }
